@@ -18,6 +18,7 @@ import z3
 
 W = 64
 CTX = None
+FORKLOG = {} if os.environ.get('VF_FORKPROF') else None
 
 
 class Infeasible(Exception):
@@ -33,6 +34,8 @@ class Ctx:
         self.side = []
         self.queries = 0
         self.secs = 0.0
+        self.axioms = set()
+        self.onesided = set()
 
 
 def _check(s, *a):
@@ -75,6 +78,21 @@ class SBool:
             r = _check(c.solver)
             c.solver.pop()
             v = (r == z3.sat)
+            if v:
+                # is the other side feasible too?  (decided now, so that one-sided decisions are never re-executed)
+                c.solver.push()
+                c.solver.add(z3.Not(self.t))
+                r2 = _check(c.solver)
+                c.solver.pop()
+                if r2 == z3.unsat:
+                    c.onesided.add(len(c.prefix))
+                elif FORKLOG is not None:
+                    import traceback as _tb
+                    fr = [f for f in _tb.extract_stack(limit=12) if 'bvx.py' not in f.filename][-3:]
+                    key = ' < '.join('%s:%d' % (f.filename.split('/')[-1][-28:], f.lineno) for f in reversed(fr))
+                    FORKLOG[key] = FORKLOG.get(key, 0) + 1
+            else:
+                c.onesided.add(len(c.prefix))
             c.prefix.append(v)
         c.pos += 1
         c.solver.add(self.t if v else z3.Not(self.t))
@@ -220,7 +238,8 @@ def _xcheck(assertions, cap=60):
     s = z3.Solver()
     for a in assertions:
         s.add(a)
-    txt = '(set-logic QF_BV)\n' + s.to_smt2().replace('(set-info :status unknown)', '')
+    body = s.to_smt2().replace('(set-info :status unknown)', '')
+    txt = ('(set-logic QF_BV)\n' if ('Int' not in body and 'declare-fun' not in body.replace('() (_ BitVec', '')) else '(set-logic ALL)\n') + body
     d = tempfile.mkdtemp(prefix='vf_bvx_')
     out = {}
     try:
@@ -277,20 +296,22 @@ def explore(fn, mkargs, prop, assumptions=(), xcheck=2, max_paths=100000):
         paths += 1
         decided = CTX.prefix
         for i in range(len(prefix), len(decided)):
-            stack.append(decided[:i] + [not decided[i]])
+            if i not in CTX.onesided:
+                stack.append(decided[:i] + [not decided[i]])
         s = CTX.solver
         verdict = None
         model = None
         if CTX.side:
+            sidec = z3.Not(z3.And(CTX.side))
             s.push()
-            s.add(z3.Not(z3.And(CTX.side)))
+            s.add(sidec)
             r = _check(s)
             if r != z3.unsat:
                 verdict, model = 'inconclusive', ('64-bit side condition violated (value may exceed the bit-vector width)')
             s.pop()
         if verdict is None:
+            neg = z3.Not(prop(res, args))     # built BEFORE push: term construction may add table axioms to the solver
             s.push()
-            neg = z3.Not(prop(res, args))
             s.add(neg)
             r = _check(s)
             if r == z3.sat:
